@@ -85,6 +85,44 @@ TrToGraph ==  \* compaction in index order; edges are re-added in index order
        /\ stamp' = stamp + Len(es) + 1
     /\ UNCHANGED <<dir, maxix, pending>> /\ Bind
 
+(* ------------------------------------------------------------------ C17: serde
+   `ser`: the JSON document is the wire format of the current state.  `de`: deserialization of that
+   stream (unchanged, or after a structural / byte mutation) into the same or the other container. *)
+HasVac == (\E i \in DOMAIN nd : nd[i] = -1) \/ (\E i \in DOMAIN ed : ed[i].w = -1)
+WireDoc == [nodes |-> LET s == Asc(LiveN) IN [j \in 1 .. Len(s) |-> nd[s[j] + 1]],
+            node_holes |-> Asc({x \in 0 .. (Len(nd) - 1) : nd[x + 1] = -1}),
+            edge_property |-> IF dir THEN "directed" ELSE "undirected",
+            edges |-> [j \in 1 .. Len(ed) |-> IF ed[j].w = -1 THEN <<-1, -1, -1>> ELSE <<ed[j].s, ed[j].t, ed[j].w>>]]
+TrSer == /\ IsEv("ser") /\ ~acyc /\ (E.fmt = "json" => E.doc = WireDoc)
+         /\ E.nc = NodeCount /\ E.ec = EdgeCount
+         /\ ret' = E.ret /\ UNCHANGED <<nd, ed, dir, maxix, stamp, pending, kind, acyc, order>>
+\* a graph handed back by a successful deserialization of a MUTATED stream must be a well-formed
+\* graph of its type (it is then adopted and every later call is validated against it)
+AdoptOK(st, k) ==
+    /\ \A j \in DOMAIN st.ed : st.ed[j] # <<-1, -1, -1>> =>
+            /\ st.ed[j][1] \in 0 .. (Len(st.nd) - 1) /\ st.ed[j][2] \in 0 .. (Len(st.nd) - 1)
+            /\ st.nd[st.ed[j][1] + 1] # -1 /\ st.nd[st.ed[j][2] + 1] # -1
+    /\ (k = "graph" => (\A j \in DOMAIN st.nd : st.nd[j] # -1) /\ (\A j \in DOMAIN st.ed : st.ed[j] # <<-1, -1, -1>>))
+    /\ Len(st.nd) <= maxix /\ Len(st.ed) <= maxix
+\* after loading, the adjacency lists are rebuilt in index order
+Reindexed(es) == [j \in DOMAIN es |-> IF es[j].w = -1 THEN VacE ELSE [es[j] EXCEPT !.k = j]]
+TrDe ==
+    /\ IsEv("de") /\ ~acyc
+    /\ ret' = E.ret /\ UNCHANGED <<maxix, pending, acyc, order>>
+    /\ IF ~E.mutated
+       THEN \* an unmodified stream: Graph <-> StableGraph keep all indices; a stream with vacancies is not a Graph
+            IF E.to = "graph" /\ HasVac
+            THEN E.ret[1] = "err_s" /\ UNCHANGED <<nd, ed, dir, stamp, kind>>
+            ELSE /\ E.ret = <<"s", "ok">> /\ kind' = E.to /\ nd' = nd /\ dir' = dir
+                 /\ ed' = Reindexed(ed) /\ stamp' = Len(ed) + 1
+       ELSE IF E.ret[1] = "err_s" THEN UNCHANGED <<nd, ed, dir, stamp, kind>>
+            ELSE /\ E.ret = <<"s", "ok">> /\ AdoptOK(E.st, E.to) /\ kind' = E.to /\ dir' = E.directed_after
+                 /\ nd' = E.st.nd
+                 /\ ed' = [j \in DOMAIN E.st.ed |-> IF E.st.ed[j] = <<-1, -1, -1>> THEN VacE
+                                                     ELSE [s |-> E.st.ed[j][1], t |-> E.st.ed[j][2], w |-> E.st.ed[j][3], k |-> j]]
+                 /\ stamp' = Len(E.st.ed) + 1
+    /\ NodeCount' = E.nc /\ EdgeCount' = E.ec /\ StMatchesN(E.st)
+
 (* ------------------------------------------------------------------ C14: Acyclic<DiGraph / StableDiGraph>
    The wrapper never lets a cycle in and keeps a valid topological order.  Which valid order it
    keeps is not specified: every event logs nodes_iter (`order`) and the spec requires it to be valid. *)
@@ -155,6 +193,7 @@ TraceNext ==
     \/ TrSetNodeWeight \/ TrSetEdgeWeight \/ TrIndexTwiceNE \/ TrIndexTwiceNN \/ TrNoEffect \/ TrIntoEdgeType
     \/ TrRetainBegin \/ TrRetainVisit \/ TrRetainEnd \/ TrExtend \/ TrMap \/ TrFilterMap
     \/ TrToStable \/ TrToGraph \/ TrObs
+    \/ TrSer \/ TrDe
     \/ TrAcWrap \/ TrAcUnwrap \/ TrAcAddNode \/ TrAcTryAddEdge \/ TrAcTryUpdateEdge \/ TrAcBuildAddEdge
     \/ TrAcBuildUpdateEdge \/ TrAcRemoveEdge \/ TrAcRemoveNode
 
